@@ -1,4 +1,4 @@
-(* C09 — property theorems for the code as it is after fix 1f61a03 (statements only; proofs in Proofs_*.v). *)
+(* C09 — property theorems for the code as it is after fixes 1f61a03 and 4ce6577 (statements only; proofs in Proofs_*.v). *)
 From Sdns Require Import Common.Base Gen.C09 C09.Model C09.Proofs_Maps C09.Proofs_Rev C09.Proofs_Step C09.Proofs_Refute C09.Proofs_Prov C09.Proofs_Thm C09.Proofs_Hist.
 Open Scope N_scope.
 
@@ -48,10 +48,10 @@ Print Assumptions revoked_only_means.
    refreshes — was older than 30 days.  (Reading: a refresh whose state file did not land counts
    neither for nor against the streak.)  The only hypothesis is the clock. *)
 Theorem new_key_needs_30d :
-  forall (tag : key -> N) (K : key) (cfg : list key) (tombs : option tmap) (tr0 : tread) (T0 : Z) (h : list event),
+  forall (tag : key -> N) (K : key) (cfg : list key) (tombs : option tmap) (tr0 : tread) (sr0 : bool) (T0 : Z) (h : list event),
     mono T0 h ->
     let d0 := mk_disk None tombs in
-    let s0 := mk_sys (restart_live cfg d0 tr0) cfg d0 in
+    let s0 := mk_sys (restart_live cfg d0 tr0 sr0) cfg d0 in
     let M0 := mk_mon None false (key_mem K cfg) in
     let M := snd (monitor tag K s0 h M0) in
     In K (s_live (exec tag s0 h)) -> m_rec M = true \/ m_prom M = true.
@@ -78,42 +78,25 @@ Theorem new_key_needs_30d_step :
 Proof. exact full_run_origin. Qed.
 Print Assumptions new_key_needs_30d_step.
 
-(* revocation_permanent — for the repaired code, with NO hypothesis on faults, tag function,
-   configurations, crash points or responses.  Once a run (from any state) accepted the
-   revocation of material m and at least one of its file replacements landed (complete run, or
-   crash after k >= 1 replacements), then after EVERY later event:
-     * the disk still records it (tombstone, or StateRevoked/Removed marker), and
-     * a key of material m is in the live set ONLY IF that event was a (re)start whose
-       configuration lists the key while the tombstone file does not hold m.
-   So: never after a completed AutoTA run; never after a restart once the tombstone landed;
-   what is still needed for the full statement "never again" is exactly
-   "the tombstone write has succeeded at least once since" — the residual window is
-   revocation_permanent_refuted below (reproduced on the Go code, listed as known). *)
+(* revocation_permanent — FULL STATEMENT for the repaired code (1f61a03 + 4ce6577), no hypothesis on
+   faults (read or write), tag function, configurations, crash points, responses or clocks.  Once a run
+   (from any state) accepted the revocation of material m and at least one of its file replacements
+   landed (complete run, or crash after k >= 1 replacements), then the disk records it (tombstone, or
+   StateRevoked/Removed marker) and after EVERY later event of EVERY continuation — AutoTA runs,
+   crashes after any prefix, restarts with any configuration and any start-up read fault — the disk
+   still records it and NO key of material m is in the live set. *)
 Theorem revocation_permanent :
   forall (tag : key -> N) (m : N) (s : sys) now fe fl,
     In m (r_revoked (run_of tag s now fe fl)) ->
     forall s1,
     ((s1 = step tag s (ERun now fe fl) /\ r_writes (run_of tag s now fe fl) <> []) \/
-     (exists k cfg' tr, s1 = step tag s (ECrash now fe fl k cfg' tr) /\ firstn k (r_writes (run_of tag s now fe fl)) <> [])) ->
+     (exists k cfg' tr sr, s1 = step tag s (ECrash now fe fl k cfg' tr sr) /\ firstn k (r_writes (run_of tag s now fe fl)) <> [])) ->
+    durable m (s_disk s1) /\
     forall h e,
-      let sb := exec tag s1 h in
-      let s' := step tag sb e in
-      durable m (s_disk s') /\
-      (forall key, In key (s_live s') -> k_mat key = m ->
-         (exists cfg' tr, (e = ERestart cfg' tr \/ exists now' fe' fl' k, e = ECrash now' fe' fl' k cfg' tr) /\
-                          In key cfg' /\ ~ durable_tomb m (s_disk s'))).
+      let s' := step tag (exec tag s1 h) e in
+      durable m (s_disk s') /\ (forall key, In key (s_live s') -> k_mat key <> m).
 Proof. exact revocation_permanent_lemma. Qed.
 Print Assumptions revocation_permanent.
-
-(* residual: tombstone write failed, marker landed, restart with the key still configured *)
-Theorem revocation_permanent_refuted :
-  exists tag s now fe fl cfg' key,
-    In 1 (r_revoked (run_of tag s now fe fl)) /\ length (r_writes (run_of tag s now fe fl)) = 1%nat /\
-    let s' := exec tag (step tag s (ERun now fe fl)) [ERestart cfg' TROk] in
-    In key (s_live s') /\ k_mat key = 1 /\
-    ~ In key (s_live (step tag s' (ERun (now + 1)%Z FErr no_faults))).
-Proof. exact revocation_permanent_refuted_marker_only_window. Qed.
-Print Assumptions revocation_permanent_refuted.
 
 (* both writes fail in a run that accepted a revocation: the trust set is cleared *)
 Theorem dual_write_failure_fails_closed :
